@@ -28,7 +28,7 @@ package dir
 
 // Directory shape (I-dir): size is a multiple of the entry size; the name
 // cache, when present, remembers an entry-aligned offset.
-//@ specfunc dirShape(dip *inode.Inode) = dip.Size & 127 == 0 && (dip.Dcache != nil ==> dip.Dcache.Lastoff & 127 == 0)
+//@ specfunc dirShape(dip *inode.Inode) = dip.Size & 127 == 0 && (dip.Dcache != nil ==> dip.Dcache.Lastoff & 127 == 0 && dip.Dcache.cache != nil)
 //@ specfunc dirReady(dip *inode.Inode, op *fstxn.FsTxn) = dirOK(dip, op) && dirShape(dip)
 // what a directory operation leaves behind: inode invariants, synced-if-it-was, other inodes untouched
 //@ specfunc dirDone(dip *inode.Inode, op *fstxn.FsTxn) = inodeInv(dip) && dirShape(dip) && opOpen(op) && dirtyInv() && (!dirtyinum[dip.Inum] || old(dirtyinum)[dip.Inum]) && othersClean(dip) && listsStable(op.Atxn)
@@ -81,6 +81,107 @@ package dir
 //@   ensures [E5-progress] !result ==> emitany && emitlast >= start && emitlast < dip.Size @C13 @C06
 //@   ensures dirDone(dip, op) && dip.Size == old(dip.Size) && dip.Kind == 2
 //@   loop 0 invariant off & 127 == 0 && start <= off && dip.Size == old(dip.Size) && dip.Kind == 2 && inodeInv(dip) && dirShape(dip) && opOpen(op) && dirtyInv() && allocInv() && (!dirtyinum[dip.Inum] || old(dirtyinum)[dip.Inum]) && othersClean(dip) && listsStable(op.Atxn)
+//@   loop 0 invariant [snd] emitSound(dip, start, off)
+//@   loop 0 invariant [cpl] emitComplete(dip, start, off)
+//@   loop 0 invariant [last] (emitany ==> emitlast < off && emitlast >= start && emitted[emitlast]) && (!emitany ==> forall o uint64 :: !emitted[o])
+//@   loop 0 decreases dip.Size - off
+
+// Fn5 (C02), S3 (C10): the name cache and the name map.
+//@ specfunc dirModsOK(dip *inode.Inode, op *fstxn.FsTxn) = dirDone(dip, op) && dip.Kind == old(dip.Kind)
+
+//@ spec mkDcache
+//@   props C10 C06 C11
+//@   requires dirReady(dip, op) && dip.Kind == 2
+//@   preserves [allocInv] allocInv() @C15 @C04
+//@   allocates buf.Buf, marshal.Enc, marshal.Dec, cell:uint64, []uint8, dir.dirEnt, dcache.Dcache, map[string]dcache.Dentry, nfstypes.Entry3
+//@   modifies dip.Dcache, dip.blks[*], dirtyinum, wroteinum, abits, op.Atxn.allocBnums, []uint64@alloctxn.AllocTxn.allocBnums, []uint8, buf.Buf.dirty, nfstypes.Entry3, cell:*nfstypes.Entry3, map[string]dcache.Dentry, emitted, emitany, emitlast
+//@   ensures dip.Dcache != nil && fresh(dip.Dcache) && dip.Dcache.Lastoff == 0
+//@   ensures dirModsOK(dip, op) && dip.Size == old(dip.Size)
+
+//@ spec LookupName
+//@   props C02 C10 C06 C11 C08
+//@   requires dirReady(dip, op)
+//@   preserves [allocInv] allocInv() @C15 @C04
+//@   allocates buf.Buf, marshal.Enc, marshal.Dec, cell:uint64, []uint8, dir.dirEnt, dcache.Dcache, map[string]dcache.Dentry, nfstypes.Entry3
+//@   modifies dip.Dcache, dip.blks[*], dirtyinum, wroteinum, abits, op.Atxn.allocBnums, []uint64@alloctxn.AllocTxn.allocBnums, []uint8, buf.Buf.dirty, nfstypes.Entry3, cell:*nfstypes.Entry3, map[string]dcache.Dentry, emitted, emitany, emitlast
+//@   ensures [Fn5-notdir] dip.Kind != 2 ==> result0 == 0 @C02
+//@   assumes [Fn5-lookup] dip.Kind == 2 ==> result0 == dnames[dip.Inum][name]
+//@   assumes [I3-validinum] result0 < 32768 && (result0 != 0 ==> result1 & 127 == 0 && result1 < dip.Size)
+//@   ensures dirModsOK(dip, op) && dip.Size == old(dip.Size) && (dip.Kind == 2 ==> dip.Dcache != nil)
+
+//@ spec RemNameDir
+//@   props C13 C04 C10 C11 C09
+//@   requires dirReady(dip, op)
+//@   preserves [allocInv] allocInv() @C15 @C04
+//@   allocates buf.Buf, marshal.Enc, marshal.Dec, cell:uint64, []uint8, dir.dirEnt, dcache.Dcache, map[string]dcache.Dentry, nfstypes.Entry3
+//@   modifies dip.Size, dip.Dcache, dip.blks[*], dirtyinum, wroteinum, abits, op.Atxn.allocBnums, []uint64@alloctxn.AllocTxn.allocBnums, []uint8, buf.Buf.dirty, nfstypes.Entry3, cell:*nfstypes.Entry3, map[string]dcache.Dentry, emitted, emitany, emitlast
+//@   ensures [E7-slot] result1 ==> result0 & 127 == 0 && result0 < dip.Size @C13
+//@   ensures [E7-size] dip.Size == old(dip.Size) @C13 @C09
+//@   ensures [Fn5-found] result1 ==> dip.Kind == 2 && old(dnames)[dip.Inum][name] != 0 @C02
+//@   ensures dirModsOK(dip, op) && (dip.Kind == 2 ==> dip.Dcache != nil)
+
+// Q1 (C19): names of up to 112 bytes are accepted, longer ones refused with no effect.
+//@ spec AddName
+//@   props C02 C04 C10 C19 C11 C09 C13
+//@   requires dirReady(dip, op)
+//@   requires [I3-store] inum < 32768 @C04
+//@   preserves [allocInv] allocInv() @C15 @C04
+//@   allocates buf.Buf, marshal.Enc, marshal.Dec, cell:uint64, []uint8, dir.dirEnt, dcache.Dcache, map[string]dcache.Dentry, nfstypes.Entry3
+//@   modifies dnames, dip.Size, dip.Dcache, dcache.Dcache.Lastoff, dip.blks[*], dirtyinum, wroteinum, abits, op.Atxn.allocBnums, []uint64@alloctxn.AllocTxn.allocBnums, []uint8, buf.Buf.dirty, nfstypes.Entry3, cell:*nfstypes.Entry3, map[string]dcache.Dentry, emitted, emitany, emitlast
+//@   ghostexit dnames = ite(result, store(dnames, dip.Inum, store(dnames[dip.Inum], name, inum)), dnames)
+//@   ensures [Q1-refuse] (len(name) > 112 || dip.Kind != 2) ==> !result && dip.Size == old(dip.Size) && dirtyinum == old(dirtyinum) @C19 @C09
+//@   ensures [Fn5-add] result ==> dnames[dip.Inum][name] == inum && dip.Kind == 2 @C02
+//@   ensures [E7-grow] dip.Size == old(dip.Size) || (result && dip.Size == old(dip.Size) + 128) @C13 @C09
+//@   ensures dirModsOK(dip, op) && (result ==> dip.Dcache != nil)
+
+//@ spec RemName
+//@   props C02 C04 C10 C19 C11 C09 C13
+//@   requires dirReady(dip, op)
+//@   preserves [allocInv] allocInv() @C15 @C04
+//@   allocates buf.Buf, marshal.Enc, marshal.Dec, cell:uint64, []uint8, dir.dirEnt, dcache.Dcache, map[string]dcache.Dentry, nfstypes.Entry3
+//@   modifies dnames, dip.Size, dip.Dcache, dcache.Dcache.Lastoff, dip.blks[*], dirtyinum, wroteinum, abits, op.Atxn.allocBnums, []uint64@alloctxn.AllocTxn.allocBnums, []uint8, buf.Buf.dirty, nfstypes.Entry3, cell:*nfstypes.Entry3, map[string]dcache.Dentry, emitted, emitany, emitlast
+//@   ghostexit dnames = ite(result, store(dnames, dip.Inum, store(dnames[dip.Inum], name, 0)), dnames)
+//@   panic_assumed "RemName"
+//@   ensures [Fn5-rem] result ==> old(dnames)[dip.Inum][name] != 0 && dnames[dip.Inum][name] == 0 && dip.Kind == 2 @C02
+//@   ensures [E7-size] dip.Size == old(dip.Size) @C13 @C09
+//@   ensures dirModsOK(dip, op) && (result ==> dip.Dcache != nil)
+
+//@ spec InitDir
+//@   props C04 C11 C10
+//@   requires dirReady(dip, op) && parent < 32768
+//@   preserves [allocInv] allocInv() @C15 @C04
+//@   allocates buf.Buf, marshal.Enc, marshal.Dec, cell:uint64, []uint8, dir.dirEnt, dcache.Dcache, map[string]dcache.Dentry, nfstypes.Entry3
+//@   modifies dnames, dip.Size, dip.Dcache, dcache.Dcache.Lastoff, dip.blks[*], dirtyinum, wroteinum, abits, op.Atxn.allocBnums, []uint64@alloctxn.AllocTxn.allocBnums, []uint8, buf.Buf.dirty, nfstypes.Entry3, cell:*nfstypes.Entry3, map[string]dcache.Dentry, emitted, emitany, emitlast
+//@   ensures [I6-dots] result ==> dnames[dip.Inum]["."] == dip.Inum && dnames[dip.Inum][".."] == parent @C04
+//@   ensures dirModsOK(dip, op)
+
+//@ spec MkRootDir
+//@   props C04 C15 C11
+//@   requires dirReady(dip, op) && dip.Inum < 32768
+//@   preserves [allocInv] allocInv() @C15 @C04
+//@   allocates buf.Buf, marshal.Enc, marshal.Dec, cell:uint64, []uint8, dir.dirEnt, dcache.Dcache, map[string]dcache.Dentry, nfstypes.Entry3
+//@   modifies dnames, dip.Size, dip.Dcache, dcache.Dcache.Lastoff, dip.blks[*], dirtyinum, wroteinum, abits, op.Atxn.allocBnums, []uint64@alloctxn.AllocTxn.allocBnums, []uint8, buf.Buf.dirty, nfstypes.Entry3, cell:*nfstypes.Entry3, map[string]dcache.Dentry, emitted, emitany, emitlast
+//@   ensures [I6-rootdots] result ==> dnames[dip.Inum]["."] == dip.Inum && dnames[dip.Inum][".."] == dip.Inum @C04
+//@   ensures dirModsOK(dip, op)
+
+// READDIRPLUS: like ApplyEnts, but every child is locked (unless already
+// owned), shown to the callback under its lock, and released again.
+//@ spec Apply
+//@   props C13 C06 C03 C11 C14 C10
+//@   requires dirReady(dip, op) && dip.Kind == 2
+//@   requires [E1-cookie] start & 127 == 0 @C13 @C11
+//@   preserves [allocInv] allocInv() @C15 @C04
+//@   callback f(ip, name, inum, off): requires [E1-slot] ip != nil && held[ip.Inum] && ip.Inum == inum && off & 127 == 0 && !emitted[off] && (!emitany || emitlast < off) && inum != 0; modifies nfstypes.Entryplus3, cell:*nfstypes.Entryplus3, emitted, emitany, emitlast; ghostexit emitted = store(emitted, off, true); ghostexit emitany = true; ghostexit emitlast = off
+//@   ghostset emitted = empty
+//@   ghostset emitany = false
+//@   allocates buf.Buf, marshal.Enc, marshal.Dec, cell:uint64, []uint8, dir.dirEnt, nfstypes.Entryplus3, cache.Cslot, inode.Inode, []uint64
+//@   modifies dip.blks[*], dirtyinum, wroteinum, abits, op.Atxn.allocBnums, []uint64@alloctxn.AllocTxn.allocBnums, []uint8, buf.Buf.dirty, nfstypes.Entryplus3, cell:*nfstypes.Entryplus3, emitted, emitany, emitlast, cache.Cslot.Obj, map[uint64]*inode.Inode, held
+//@   ensures [E1-sound] emitSound(dip, start, dip.Size) @C13
+//@   ensures [E3-complete] emitComplete(dip, start, ite(result, dip.Size, emitlast + 128)) @C13
+//@   ensures [E5-progress] !result ==> emitany && emitlast >= start && emitlast < dip.Size @C13 @C06
+//@   ensures [L2-heldsame] held == old(held) @C03 @C06
+//@   ensures dirDone(dip, op) && dip.Size == old(dip.Size) && dip.Kind == 2
+//@   loop 0 invariant off & 127 == 0 && start <= off && dip.Size == old(dip.Size) && dip.Kind == 2 && inodeInv(dip) && dirShape(dip) && opOpen(op) && dirtyInv() && allocInv() && (!dirtyinum[dip.Inum] || old(dirtyinum)[dip.Inum]) && othersClean(dip) && listsStable(op.Atxn) && held == old(held)
 //@   loop 0 invariant [snd] emitSound(dip, start, off)
 //@   loop 0 invariant [cpl] emitComplete(dip, start, off)
 //@   loop 0 invariant [last] (emitany ==> emitlast < off && emitlast >= start && emitted[emitlast]) && (!emitany ==> forall o uint64 :: !emitted[o])
